@@ -88,7 +88,7 @@ func discoverClones(p *Program, pkgs ...string) []cloneFn {
 		})
 		if !constructs {
 			for _, ret := range returnsOf(fn) {
-				for r := range rootsOf(ret.Results[0]) {
+				for r := range rootsOf(retResult(ret, 0)) {
 					if c, ok := r.(*ssa.Call); ok {
 						if cal := staticCallee(c); cal != nil && p.inModule(cal) && cal != fn {
 							constructs = true
@@ -103,7 +103,7 @@ func discoverClones(p *Program, pkgs ...string) []cloneFn {
 		// the result must not simply be the source in all cases (fluent setters return the receiver)
 		allSrc := true
 		for _, ret := range returnsOf(fn) {
-			if stripLoads(ret.Results[0]) != src && !isNilConst(ret.Results[0]) {
+			if stripLoads(retResult(ret, 0)) != src && !isNilConst(retResult(ret, 0)) {
 				allSrc = false
 			}
 		}
